@@ -42,6 +42,17 @@ CHECKS = {
             "Item alphabet is finite (18 atoms, modules nested two deep); streams of mixed unsafety are not generated because "
             "bindgen cannot emit them; sort rank order itself is not part of the property (only grouping/stability).",
             "6/C18"),
+    "C15": ("fault_enumeration",
+            "exhaustive enumeration of scripted formatter-child behaviours (stdin mode x stdout mode x termination) and spawn "
+            "faults x bindings size x rustfmt config, each executed against the real Bindings::write under a watchdog",
+            "All 192 consistent (stdin, stdout, termination) behaviours of the formatter child plus 5 spawn faults are executed "
+            "against the real write()/format_tokens path on small and multi-megabyte bindings; write must return Ok in time, the "
+            "header comment and raw lines must appear exactly once and first, and for every failure mode (and the three real "
+            "formatter settings) the output must tokenise to the Formatter::None token sequence.",
+            "Exit 0/3 with valid UTF-8 is trusted by design and only checked for termination and preamble; trailing commas before "
+            "closing delimiters are treated as layout (rustfmt/prettyplease add or drop them when re-wrapping); a child that never "
+            "reads and never exits is outside the property.",
+            "6/C15"),
 }
 
 NOT_YET = "check not built yet in this round (see DESIGN.md section 10a for the plan)"
